@@ -73,3 +73,20 @@ class gridflow_invalidate_by_list:
 
     def ensures(old, s, a, result):
         yield from type(gf_invalidate).ensures(old, s, a, result)  # cached display widget dropped, canvases invalidated, contents untouched
+
+
+@contract(CO + "Columns._invalidate", property="C16", alias="called-by-the-list", inline=CINL, replayable=False)
+class columns_invalidate_by_list:
+    """Columns wires the focus-changed callback to `_invalidate` (`lambda f: self._invalidate()`), and `_contents_modified` calls
+    it too: both while the stored index is the stale one.  (contracts/C08_focus.py only ASSUMES this function; here its real
+    body is verified for that state.)"""
+    self_shape = COLUMNS
+    raises = ()
+
+    def requires(s, a):
+        return stale_focus(s._contents)
+
+    def ensures(old, s, a, result):
+        yield "cached-widths-dropped", is_none(s._cache_maxcol)
+        yield "canvases-invalidated", count_ev(s.trace, "_invalidate") == 1
+        yield "list-and-stored-focus-untouched", list_state_untouched(old, s)
